@@ -160,21 +160,26 @@ def run_opt(spec, rec, dadi):
             if fx:
                 fixed = [float(ptrue[i] * rng.uniform(0.8, 1.25)) if i in fx else None for i in range(npar)]
                 fixed = [min(max(v, lb[i]), ub[i]) if v is not None else None for i, v in enumerate(fixed)]
+                if 1 in fx and (ci + oi) % 2 == 0:
+                    # a nested model: the exponent fixed at exactly 0 (a flat first factor), its lower bound at 0
+                    fixed[1] = 0.0 if ci % 4 < 2 else 0
+                    lb[1] = 0.0
             startkind = str(rng.choice(["inside", "inside", "on-lower", "on-upper", "near-lower"]))
             p0 = []
             for i in range(npar):
+                lo_i = lb[i] if lb[i] > 0 else 0.1 * float(ptrue[i])       # (the start value of a fixed parameter is ignored)
                 if startkind == "inside":
-                    p0.append(float(np.exp(rng.uniform(np.log(lb[i] * 1.05), np.log(ub[i] * 0.95)))))
+                    p0.append(float(np.exp(rng.uniform(np.log(lo_i * 1.05), np.log(ub[i] * 0.95)))))
                 elif startkind == "on-lower":
-                    p0.append(lb[i] if i % 2 == 0 else float(ptrue[i]))
+                    p0.append(lo_i if i % 2 == 0 else float(ptrue[i]))
                 elif startkind == "on-upper":
                     p0.append(ub[i] if i % 2 == 0 else float(ptrue[i]))
                 else:
-                    p0.append(lb[i] * (1 + 1e-9))
+                    p0.append(lo_i * (1 + 1e-9))
             if "log" in oname:
                 # optimisers working in log parameters reproduce the start as exp(log(p0)), which can fall 1 ulp outside a
                 # bound the start sits exactly on; such starts are moved 1e-9 inside (stated in DESIGN, not a judged case)
-                p0 = [min(max(v, lb[i] * (1 + 1e-9)), ub[i] * (1 - 1e-9)) for i, v in enumerate(p0)]
+                p0 = [min(max(v, (lb[i] if lb[i] > 0 else v) * (1 + 1e-9)), ub[i] * (1 - 1e-9)) for i, v in enumerate(p0)]
             none_bounds = bool(rng.random() < 0.25) and oname not in ("optimize_grid",)
             lbu, ubu = list(lb), list(ub)
             if none_bounds:
@@ -247,7 +252,7 @@ def run_project(spec, rec, dadi):
     for ci in range(spec["n"]):
         rng = rng_for(spec["seed"], "C12proj", ci)
         n = int(rng.integers(1, 8))
-        fixed = [float(rng.uniform(-3, 3)) if rng.random() < 0.4 else None for _ in range(n)]
+        fixed = [(float(rng.uniform(-3, 3)) if rng.random() < 0.6 else (0.0 if rng.random() < 0.7 else 0)) if rng.random() < 0.4 else None for _ in range(n)]
         if rng.random() < 0.15:
             fixed = None
         full = rng.uniform(-5, 5, size=n)
